@@ -975,7 +975,9 @@ func enumerate(m *mon.M) []*Case {
 
 func run(m *mon.M) {
 	cs := enumerate(m)
-	m.Note("fault_placements_enumerated", int64(len(cs)))
+	if m.Shard == 0 {
+		m.Note("fault_placements_enumerated", int64(len(cs)))
+	}
 	for i, c := range cs {
 		if i%m.NShards != m.Shard {
 			continue
